@@ -115,10 +115,11 @@ class WatermarkPoolSink(PoolSink):
       self._current_size += 1
       self._varz.size(self._current_size)
       sink = self._sink_provider.CreateSink(self._properties)
+      # Subscribe before opening, a sink that fails to open faults as well.
+      sink.on_faulted.Subscribe(self.__PropagateShutdown)
       # TODO: we could get a better failure case here by detecting that Open()
       # failed and retrying, however for now the simplest option is to just fail.
       sink.Open().wait()
-      sink.on_faulted.Subscribe(self.__PropagateShutdown)
       return sink
     else:
       if len(self._waiters) + 1 > self._max_queue_size:
@@ -188,6 +189,9 @@ class WatermarkPoolSink(PoolSink):
   def _OpenImpl(self):
     sink = self._Get()
     self._Release(sink)
+    if self._state == ChannelState.Closed:
+      # The first sink could not be opened (releasing it closed the pool).
+      raise Exception('Unable to open a sink for %s' % self.endpoint)
     self._state = ChannelState.Open
 
   def _FlushCache(self):
